@@ -510,3 +510,60 @@ def _(ctx):
                 ok = ok and ((len(spinfo) == 3 and all(f[0] == 'SPINFO' for f in spinfo)) if warn else not spinfo) and fills[-1] == ('WRITE',)
                 ctx.record(tag, PROVED if ok else FAILED, 'B', 0, 'fill_block_entry calls: %s' % ([f[:2] for f in fills],))
                 ctx.merge_rules(it)
+
+# ---------------------------------------------------------------------------------------------------
+# which reader / writer the program selects for which input type and output format (README: "Output formats")
+# ---------------------------------------------------------------------------------------------------
+@obligation('C15.program.reader_writer_selection', fns=[(MAIN, 'make_mssmnofv_setup'), (MAIN, 'make_thdm_setup'), (MAIN, 'set_to_default')])
+def _(ctx):
+    """ensures (enumerated exhaustively: 3 input types x 5 output formats): SLHA input is read by SLHA_reader (fill_slha + convert_to_onshell), GM2Calc input by GM2Calc_reader
+    (fill_gm2calc + calculate_masses), THDM input by THDM_reader; output format 0 selects the minimal writer, 1 the detailed writer OF THAT MODEL, 2/3/4 (NMSSMTools, SPheno,
+    GM2Calc) the SLHA writer; the options are stored unchanged; the default output format is GM2Calc (4) for SLHA and THDM input and Detailed (1) for GM2Calc input"""
+    E = ctx.w.enumerators
+    fmts = {'Minimal': 0, 'Detailed': 1, 'NMSSMTools': 2, 'SPheno': 3, 'GM2Calc': 4}
+    want_writer = {'Minimal': 'Minimal_writer', 'Detailed': 'Detailed_writer<%s>', 'NMSSMTools': 'SLHA_writer', 'SPheno': 'SLHA_writer', 'GM2Calc': 'SLHA_writer'}
+    for inp, reader, model_cls in (('SLHA', 'SLHA_reader', 'MSSMNoFV_onshell'), ('GM2Calc', 'GM2Calc_reader', 'MSSMNoFV_onshell'), ('THDM', 'THDM_reader', 'THDM')):
+        for fname, fval in fmts.items():
+            it = Interp(ctx.w, mode='sym')
+            o = it.new_object('Config_options')
+            o.f['output_format'] = fval
+            o.f['loop_order'] = z3.Real('loop_order_marker')
+            try:
+                if inp == 'THDM':
+                    ps = it.run_paths(lambda: it.call('make_thdm_setup', [o], file=MAIN))
+                else:
+                    ps = it.run_paths(lambda: it.call("make_mssmnofv_setup", [_input_enum(ctx, inp), o], file=MAIN))
+            except Exception as e:
+                ctx.record('%s.%s' % (inp, fname), ERROR, 'B', 0, 'extraction: %s' % e)
+                continue
+            ctx.merge_rules(it)
+            ok = len(ps) == 1 and ps[0][2] is None and isinstance(ps[0][1], Obj)
+            det = 'no setup object'
+            if ok:
+                su = ps[0][1]
+                rd = getattr(su.f.get('reader'), 'cls', type(su.f.get('reader')).__name__)
+                wr = getattr(su.f.get('writer'), 'cls', type(su.f.get('writer')).__name__)
+                ww = want_writer[fname]
+                ww_ok = (wr == ww) if '%s' not in ww else (wr.startswith('Detailed_writer<') and model_cls in wr)
+                opt_ok = isinstance(su.f.get('options'), Obj) and is_sym(su.f['options'].f.get('loop_order')) and z3.eq(su.f['options'].f['loop_order'], z3.Real('loop_order_marker')) \
+                    and su.f['options'].f.get('output_format') == fval
+                ok = rd == reader and ww_ok and opt_ok
+                det = 'reader %s, writer %s, options %s' % (rd, wr, 'stored unchanged' if opt_ok else 'CHANGED')
+            ctx.record('%s.%s' % (inp, fname), PROVED if ok else FAILED, 'B', 0, det + ' (documented: %s, %s)' % (reader, want_writer[fname] % model_cls if '%s' in want_writer[fname] else want_writer[fname]))
+    # defaults
+    for inp, want in (('SLHA', 4), ('GM2Calc', 1), ('THDM', 4)):
+        it = Interp(ctx.w, mode='sym')
+        o = it.new_object('Config_options')
+        o.f['output_format'] = 'unset'
+        cmd = Obj('Gm2_cmd_line_options', {'input_source': 'file', 'input_type': _input_enum(ctx, inp)})
+        try:
+            ps = it.run_paths(lambda: it.call('set_to_default', [o, cmd], file=MAIN))
+            ok = len(ps) == 1 and ps[0][2] is None and o.f['output_format'] == want
+            det = 'default output format %r' % (o.f['output_format'],)
+        except Exception as e:
+            ok, det = False, 'extraction: %s' % e
+        ctx.record('default.%s' % inp, PROVED if ok else FAILED, 'B', 0, det + ' (documented: %d)' % want)
+
+def _input_enum(ctx, name):
+    """value of Gm2_cmd_line_options::E_input_type::<name> (declared in src/gm2calc.cpp as enum E_input_type { SLHA, GM2Calc, THDM })"""
+    return {'SLHA': 0, 'GM2Calc': 1, 'THDM': 2}[name]
